@@ -292,12 +292,33 @@ def apply_loop_rule(rule, header, ghost, log, unit):
     raise ExtractError('%s: unknown loop rule %s' % (unit, rule))
 
 
+def _r7(a, b):
+    """`x op= e` -> `x = x op e` when e is atomic (identifier / deref / call / index, no top-level binary operator), otherwise the
+    right-hand side must be parenthesised: `x = x op (e)` (compound assignment evaluates e as a whole)."""
+    m = re.fullmatch(r'(\*?\w+(?:\[\w+\])?)\s*([-+*/])=\s*(.+)', a, re.S)
+    if not m:
+        return False
+    x, op, e = m.group(1), m.group(2), m.group(3).strip()
+    flat, depth = [], 0
+    for ch in e:
+        if ch in '([':
+            depth += 1
+        elif ch in ')]':
+            depth -= 1
+        elif depth == 0:
+            flat.append(ch)
+    atomic = re.fullmatch(r'\*?[\w\.:]+', ''.join(flat)) is not None
+    if b == '%s = %s %s (%s)' % (x, x, op, e):
+        return True
+    return atomic and b == '%s = %s %s %s' % (x, x, op, e)
+
+
 REWRITE_RULES = {
     # rule id -> validator(from, to) -> bool
     'W': lambda a, b: re.fullmatch(r'(.+)\.len\(\)', a) and b == 'range_len(&%s)' % re.fullmatch(r'(.+)\.len\(\)', a).group(1),
     'R6': lambda a, b: a.replace('|', '||', 1) == b or a.replace(' | ', ' || ') == b,
     # R7: compound assignment on a primitive float (Verus crashes on `f32 +=`): `x op= e` -> `x = x op e`
-    'R7': lambda a, b: bool(re.fullmatch(r'(\*?\w+)\s*([-+*/])=\s*(.+)', a, re.S)) and (lambda m: b == '%s = %s %s %s' % (m.group(1), m.group(1), m.group(2), m.group(3)))(re.fullmatch(r'(\*?\w+)\s*([-+*/])=\s*(.+)', a, re.S)),
+    'R7': lambda a, b: _r7(a, b),
     # T1: explicit type ascription on a `let` whose type rustc infers from later uses (ghost text needs it earlier)
     'T1': lambda a, b: bool(re.fullmatch(r'(let\s+(mut\s+)?\w+)(\s*=.*)', a, re.S)) and re.sub(r'^(let\s+(mut\s+)?\w+)\s*:\s*[^=]+?(\s*=)', r'\1\3', b, flags=re.S) == a,
     # CL: closure `|x| EXPR` given explicit parameter/return types and ghost requires/ensures: `|x: T| -> (r: U) requires .. ensures .. { EXPR }`
